@@ -336,6 +336,8 @@ pub enum MapFn {
     FromMax,
     /// I -> SetUnionHashSet<i64> (singleton set)
     ToSet,
+    /// P -> (i64, Max<i64>): `(k, Max::new(v))`
+    KeyMax,
     /// I -> gd::Sh: `x mod 3`: 0 => A(x), 1 => B(x, x + 1), 2 => C { k: x, v: x * 2 }
     ToShape,
 }
@@ -536,6 +538,11 @@ pub enum Op {
     State { pers: Vec<Pers> },
     /// `state_by::<'p, Max<i64>>(|x: i64| Max::new(x), Default::default)`: i64 items, outputs [items], [state]
     StateBy { pers: Vec<Pers> },
+    /// `_lattice_fold_batch::<L>()`: inputs [input] lattice items, [signal] anything
+    LatticeFoldBatch,
+    /// `_lattice_join_fused_join::<'a, 'b, Max<i64>, Max<i64>>()` followed by the revealing map of
+    /// its documentation: inputs (i64, Max<i64>), output (i64, (i64, i64))
+    LatticeJoinFused { pers: Vec<Pers> },
     /// `demux_enum::<gd::Sh>()`: outputs [A] (i64,), [B] (i64, i64), [C] (i64, i64)
     DemuxEnum,
     /// `initialize()`: a single `()` in the first tick
@@ -638,6 +645,8 @@ impl Op {
             Op::State { .. } => "state",
             Op::StateBy { .. } => "state_by",
             Op::DemuxEnum => "demux_enum",
+            Op::LatticeFoldBatch => "_lattice_fold_batch",
+            Op::LatticeJoinFused { .. } => "_lattice_join_fused_join",
             Op::Initialize => "initialize",
             Op::ForEach { .. } => "for_each",
             Op::Null => "null",
@@ -664,7 +673,8 @@ impl Op {
             | Op::LatticeFold { pers }
             | Op::LatticeReduce { pers }
             | Op::State { pers }
-            | Op::StateBy { pers } => Some(pers),
+            | Op::StateBy { pers }
+            | Op::LatticeJoinFused { pers } => Some(pers),
             _ => None,
         }
     }
@@ -683,7 +693,7 @@ impl Op {
         match self {
             Op::Persist => true,
             Op::MultisetDelta => true,
-            Op::DeferSignal => true,
+            Op::DeferSignal | Op::LatticeFoldBatch => true,
             _ => self
                 .pers()
                 .map(|p| p.iter().any(|x| *x == Pers::Static))
@@ -712,6 +722,8 @@ impl Op {
             | Op::CrossSingleton { .. }
             | Op::JoinMultisetHalf { .. }
             | Op::JoinFused { .. }
+            | Op::LatticeFoldBatch
+            | Op::LatticeJoinFused { .. }
             | Op::DeferSignal => 2,
             _ => 1,
         }
@@ -725,13 +737,14 @@ impl Op {
             | Op::ZipLongest { .. }
             | Op::Join { .. }
             | Op::CrossJoin { .. }
+            | Op::LatticeJoinFused { .. }
             | Op::JoinFused { .. } => Some(format!("{i}")),
             Op::AntiJoin { .. } | Op::Difference { .. } => {
                 Some(if i == 0 { "pos" } else { "neg" }.to_string())
             }
             Op::CrossSingleton { .. } => Some(if i == 0 { "input" } else { "single" }.to_string()),
             Op::JoinMultisetHalf { .. } => Some(if i == 0 { "build" } else { "probe" }.to_string()),
-            Op::DeferSignal => Some(if i == 0 { "input" } else { "signal" }.to_string()),
+            Op::DeferSignal | Op::LatticeFoldBatch => Some(if i == 0 { "input" } else { "signal" }.to_string()),
             _ => None,
         }
     }
@@ -785,6 +798,7 @@ pub fn out_types(op: &Op, ins: &[Ty], prog_sources: &[Ty]) -> Result<Vec<Ty>, St
                 MapFn::FromMax if *t == Ty::MaxI => i(),
                 MapFn::ToSet if *t == Ty::I => Ty::SetI,
                 MapFn::ToShape if *t == Ty::I => Ty::Sh,
+                MapFn::KeyMax if t.is_p() => Ty::pair(Ty::I, Ty::MaxI),
                 _ => return bad("map fn does not apply to input type"),
             };
             Ok(vec![o])
@@ -1100,6 +1114,25 @@ pub fn out_types(op: &Op, ins: &[Ty], prog_sources: &[Ty]) -> Result<Vec<Ty>, St
                 Ok(vec![Ty::I, Ty::MaxI])
             } else {
                 bad("items must be i64")
+            }
+        }
+        Op::LatticeFoldBatch => {
+            need(2)?;
+            match &ins[0] {
+                Ty::MaxI | Ty::SetI => Ok(vec![ins[0].clone()]),
+                _ => bad("input not a lattice"),
+            }
+        }
+        Op::LatticeJoinFused { pers } => {
+            need(2)?;
+            if pers.len() > 2 {
+                return bad("too many persistence args");
+            }
+            let kl = Ty::pair(Ty::I, Ty::MaxI);
+            if ins[0] == kl && ins[1] == kl {
+                Ok(vec![Ty::pair(Ty::I, Ty::p())])
+            } else {
+                bad("inputs must be (i64, Max<i64>)")
             }
         }
         Op::DemuxEnum => {
